@@ -159,7 +159,11 @@ impl WriteSource for pr::ExprKind {
                 r += opt.consume(&name)?;
                 opt.unbound_expr = true;
 
-                for (name, arg) in &func_call.named_args {
+                // named args are kept in a hash map: write them sorted by name, so that
+                // formatting the same program always gives the same text
+                let mut named_args: Vec<_> = func_call.named_args.iter().collect();
+                named_args.sort_by(|a, b| a.0.cmp(b.0));
+                for (name, arg) in named_args {
                     r += opt.consume(" ")?;
 
                     r += opt.consume(name)?;
